@@ -145,10 +145,9 @@ class TreeConverter:
                     f"Unexpected token {e} ({type(self)})")
             return converter(child).to_node()
         elif isinstance(child, Token):
-            try:
-                method = "convert_" + child.type.lower()
-            except KeyError as e:
-                raise InternalParserException(f"Unexpected token {e}")
+            method = "convert_" + child.type.lower()
+            if not hasattr(self, method):
+                raise RegexException(f"Unsupported token '{child}' ({child.type}) in {type(self).__name__}")
             return getattr(self, method)(child)
         else:
             raise InternalParserException(f"Unexpected type {type(child)}")
